@@ -5,12 +5,18 @@ PROPERTY = "C01"
 
 
 def t2(sx, S, prefix, rsv, oldlens, lens, long, nxp=None, rsv_on_len=False, plen=(), concrete=False,
-       again=None, overlap=False):
+       again=None, overlap=False, extra=None):
     oldlen = sx.pick("oldlen", oldlens)
     worlds.OVERLAPPING_ENCODINGS[0] = bool(overlap)
+    kw = {}
+    if extra is not None:
+        # physical memory ends `extra` bytes behind the data area (0: the
+        # 64 byte static tag; pages behind it are answered with NAK)
+        kw["extra"] = extra
+        sx.reach("memory_ends_with_data_area")
     w = worlds.T2World(sx, S, prefix, [tuple(r) for r in rsv], oldlen,
                        old_lt_80=long, nxp=nxp, rsv_on_len=rsv_on_len, plen=plen,
-                       symbolic_window=(0, 0) if concrete else None)
+                       symbolic_window=(0, 0) if concrete else None, **kw)
     if w.hdr_rsv:
         # reserved bytes between the T, L and V bytes of a TLV or inside a
         # TLV that is jumped over: labels of their own (known finding)
@@ -120,6 +126,13 @@ def partitions(tier):
         parts.append(dict(name="t2:48:%s:%d:sep" % (prefix or "-", i), fn="t2",
                           params=dict(S=48, prefix=prefix, rsv=rsv, oldlens=olds,
                                       lens=lens, long=True)))
+    # the tag's memory ends with the data area (the 64 byte static tag, a
+    # 144 byte tag whose lock bytes are announced elsewhere): nothing behind
+    # the last data byte may be touched, a NAK there fails the write
+    for S, prefix, rsv in ((48, "", []), (48, "N", []), (128, "L", [(8, 2)])):
+        parts.append(dict(name="t2:%d:%s:memory-ends-with-data-area" % (S, prefix or "-"), fn="t2",
+                          params=dict(S=S, prefix=prefix, rsv=rsv, oldlens=[0, 3],
+                                      lens=[0, 5, "cap-1", "cap", "cap+1"], long=True, extra=0)))
     # a reserved range that separates the NDEF TLV's T, L and V bytes
     # (TL: known finding, previous contents concrete so that the misread
     # length does not multiply the paths)
@@ -322,14 +335,14 @@ def partitions(tier):
     return parts
 
 
-MUST_REACH = ["t4_other_file_identifier", "ctl_tlv_byte_offset_beyond_page_size", "second_write_on_same_object", "second_write_changes_length_format", "oversize_rejected", "empty_message_written", "three_byte_length",
+MUST_REACH = ["memory_ends_with_data_area", "t4_other_file_identifier", "ctl_tlv_byte_offset_beyond_page_size", "second_write_on_same_object", "second_write_changes_length_format", "oversize_rejected", "empty_message_written", "three_byte_length",
               "message_fills_capacity", "rsv_inside_message", "rsv_before_ndef_tlv",
               "rsv_beyond_data_area", "rsv_at_end_of_data_area", "rsv_after_message",
               "t1_message_spans_reserved_blocks", "nxp_vendor_class", "felica_vendor_class"]
 BOUNDS = {
-    "quick": "Type 2: data areas of 48 bytes (13 control-TLV layouts, lengths from boundary sets), 264 bytes with 5..9 bytes of TLVs in front (capacity edge at 254/255), 496 bytes (plain, lock TLV, NULL+memory TLV) with lengths around 254/255/256 and the capacity, one two-sector tag (2032 bytes) written across the sector boundary, NXP products NTAG213/215/203 and Ultralight EV1 through their vendor classes; Type 1: Topaz, static with NULL/memory TLV, Topaz-512, generic dynamic tags (HR0 12h/13h/1Fh; 256, 296, 512 bytes); Type 3: seven (Nbr, Nbw, Nmaxb) triples incl. Nbr 15, a 64 KiB data area, FeliCa Lite/Lite-S vendor classes, and the library's own Type 3 emulation as the tag; Type 4: mapping versions 2 and 3, Type 4A/4B, FSCI 2/5/8, MLe and MLc symbolic over 1..FFFFh, AID versions.  All message bytes and all previous tag contents symbolic (except the 64 KiB and sector-crossing partitions); added later: proprietary TLVs and two control TLVs of a kind, reserved ranges between T/L/V bytes (known finding), a 2 KiB Type 1 tag, two writes through one NDEF object, control TLVs with size byte 00h, control-TLV encodings whose byte offset reaches into the next pages, Type 4 files with identifiers other than E104h and further CC TLVs",
+    "quick": "Type 2: data areas of 48 bytes (13 control-TLV layouts, lengths from boundary sets), 264 bytes with 5..9 bytes of TLVs in front (capacity edge at 254/255), 496 bytes (plain, lock TLV, NULL+memory TLV) with lengths around 254/255/256 and the capacity, one two-sector tag (2032 bytes) written across the sector boundary, NXP products NTAG213/215/203 and Ultralight EV1 through their vendor classes; Type 1: Topaz, static with NULL/memory TLV, Topaz-512, generic dynamic tags (HR0 12h/13h/1Fh; 256, 296, 512 bytes); Type 3: seven (Nbr, Nbw, Nmaxb) triples incl. Nbr 15, a 64 KiB data area, FeliCa Lite/Lite-S vendor classes, and the library's own Type 3 emulation as the tag; Type 4: mapping versions 2 and 3, Type 4A/4B, FSCI 2/5/8, MLe and MLc symbolic over 1..FFFFh, AID versions.  All message bytes and all previous tag contents symbolic (except the 64 KiB and sector-crossing partitions); added later: proprietary TLVs and two control TLVs of a kind, reserved ranges between T/L/V bytes (known finding), a 2 KiB Type 1 tag, two writes through one NDEF object, control TLVs with size byte 00h, control-TLV encodings whose byte offset reaches into the next pages, Type 4 files with identifiers other than E104h and further CC TLVs, Type 2 tags whose memory ends with the data area",
     "thorough": "as quick, plus every message length for the 48-byte Type 2 and 120-byte Type 1 areas, data areas 872/2032, more Type 3 triples, NTAG216, further Type 4 combinations"}
 OUTSIDE = ["data area sizes and layouts other than listed", "more than two lock- or memory-control TLVs of a kind",
            "message contents of the 64 KiB / sector-crossing partitions (concrete there: the subject is the length and address arithmetic)"]
-ASSUMPTIONS = ["the tag simulators of env/tags.py: plain memory, NAK beyond the physical size (which is larger than the declared data area where a partition says so), Type 4: ISO/IEC 14443-4 PICC rules + ISO/IEC 7816-4 NDEF application with strict Le/Lc/file-size checks",
+ASSUMPTIONS = ["a fresh activation finds a Type 2 tag with sector 0 selected", "the tag simulators of env/tags.py: plain memory, NAK beyond the physical size (which is larger than the declared data area where a partition says so), Type 4: ISO/IEC 14443-4 PICC rules + ISO/IEC 7816-4 NDEF application with strict Le/Lc/file-size checks",
                "capacity oracle: the harness computes what the layout it generated can hold (harness/worlds.py real_capacity)"]
